@@ -1,6 +1,10 @@
 package rules
 
 import (
+	"fmt"
+	"os"
+	"runtime"
+	"time"
 	"go/constant"
 	"go/types"
 	"sort"
@@ -143,7 +147,7 @@ func buildScanModel(c *core.Ctx, pkgRel string) *scanModel {
 	}
 	sort.Strings(m.names)
 
-	effectNames := map[string]bool{"found": true, "Push": true, "Pop": true, "setContext": true, "restoreContext": true}
+	effectNames := map[string]bool{"found": true, "Push": true, "Pop": true, "setContext": true, "restoreContext": true, "validateValue": true}
 	pureNames := map[string]bool{"Len": true, "Peek": true, "Get": true, "newJSchemaErrorAtCharacter": true, "newJSchemaError": true, "NewJSchemaError": true, "F": true, "Byte": true, "SetIndex": true}
 	cfg := absint.Config{
 		InModule:  c.P.FuncInModule,
@@ -153,43 +157,76 @@ func buildScanModel(c *core.Ctx, pkgRel string) *scanModel {
 			return effectNames[baseName(f)] && (core.FuncPkgPath(f) == pkgPath || strings.HasSuffix(core.FuncPkgPath(f), "internal/ds"))
 		},
 	}
-	var in *absint.Interp
-	cfg.Inline = func(f *ssa.Function) bool {
-		pp := core.FuncPkgPath(f)
-		if pureNames[baseName(f)] && (pp == pkgPath || strings.HasSuffix(pp, "internal/ds") || strings.HasSuffix(pp, "/errs") || strings.HasSuffix(pp, "/kit") || strings.HasSuffix(pp, "/bytes")) {
-			return false
+	newInterp := func() *absint.Interp {
+		var in *absint.Interp
+		cf := cfg
+		cf.Inline = func(f *ssa.Function) bool {
+			pp := core.FuncPkgPath(f)
+			if pureNames[baseName(f)] && (pp == pkgPath || strings.HasSuffix(pp, "internal/ds") || strings.HasSuffix(pp, "/errs") || strings.HasSuffix(pp, "/kit") || strings.HasSuffix(pp, "/bytes")) {
+				return false
+			}
+			if pp != pkgPath && pp != core.Module+"/bytes" {
+				return false
+			}
+			return f.Blocks != nil && !in.HasLoop(f)
 		}
-		if pp != pkgPath && pp != core.Module+"/bytes" {
-			return false
-		}
-		return f.Blocks != nil && !in.HasLoop(f)
+		in = absint.New(cf)
+		return in
 	}
-	in = absint.New(cfg)
 
-	for _, n := range m.names {
-		f := m.states[n]
-		var rows [256]scanRow
-		for b := 0; b < 256; b++ {
-			args := []absint.Val{absint.Ptr{Base: "s"}, absint.MkByte(b)}
-			outs := in.Run(f, args, nil)
-			row := scanRow{}
-			for _, o := range outs {
-				row.paths = append(row.paths, m.project(o))
-			}
-			sort.Slice(row.paths, func(i, j int) bool { return row.paths[i].String() < row.paths[j].String() })
-			var ks []string
-			for i := range row.paths {
-				ks = append(ks, row.paths[i].String())
-				if row.paths[i].kind == "abort" {
-					m.undecided = append(m.undecided, core.F("%s on byte %d: %s", n, b, row.paths[i].errCtx))
-				}
-			}
-			row.key = strings.Join(ks, " || ")
-			rows[b] = row
-		}
-		r := rows
-		m.rows[n] = &r
+	type res struct {
+		name string
+		rows *[256]scanRow
+		und  []string
 	}
+	jobs := make(chan string, len(m.names))
+	out := make(chan res, len(m.names))
+	workers := runtime.NumCPU()
+	if workers > len(m.names) {
+		workers = len(m.names)
+	}
+	for w := 0; w < workers; w++ {
+		go func() {
+			in := newInterp()
+			for n := range jobs {
+				f := m.states[n]
+				if os.Getenv("JSV_DEBUG") != "" {
+					fmt.Fprintln(os.Stderr, "summarising", pkgRel, n, time.Now().Format("15:04:05"))
+				}
+				var rows [256]scanRow
+				var und []string
+				for b := 0; b < 256; b++ {
+					args := []absint.Val{absint.Ptr{Base: "s"}, absint.MkByte(b)}
+					outs := in.Run(f, args, nil)
+					row := scanRow{}
+					for _, o := range outs {
+						row.paths = append(row.paths, m.project(o))
+					}
+					sort.Slice(row.paths, func(i, j int) bool { return row.paths[i].String() < row.paths[j].String() })
+					var ks []string
+					for i := range row.paths {
+						ks = append(ks, row.paths[i].String())
+						if row.paths[i].kind == "abort" {
+							und = append(und, core.F("%s on byte %d: %s", n, b, row.paths[i].errCtx))
+						}
+					}
+					row.key = strings.Join(ks, " || ")
+					rows[b] = row
+				}
+				out <- res{n, &rows, und}
+			}
+		}()
+	}
+	for _, n := range m.names {
+		jobs <- n
+	}
+	close(jobs)
+	for range m.names {
+		r := <-out
+		m.rows[r.name] = r.rows
+		m.undecided = append(m.undecided, r.und...)
+	}
+	sort.Strings(m.undecided)
 	scanModelCache[ck] = m
 	return m
 }
